@@ -366,6 +366,13 @@ func c01r3(c *core.Ctx) {
 			if f == verifyHandler && req != nil && sessionOfRequest(core.Receiver(i), req) {
 				c.OK(key, posOf(i), "only reachable from the /pair-verify handler; receiver is the session looked up for the handler's own request")
 			} else if f != verifyHandler {
+				// a helper of the handler: the receiver, in the handler's terms, must still be the session of this request
+				for _, l := range liftedSites(verifyHandler, func(j ssa.Instruction) bool { return j == i }) {
+					if req != nil && !sessionOfRequest(l.val(core.Receiver(i)), req) {
+						c.Bad(key+"/receiver", posOf(i), "the session receiving the cryptographer (through %s) is not the one looked up for this request's connection key", fname(f))
+						return
+					}
+				}
 				c.OK(key, posOf(i), "only reachable from the /pair-verify handler (through %s)", fname(f))
 			} else {
 				c.Bad(key+"/receiver", posOf(i), "the session receiving the cryptographer is not the one looked up for this request's connection key")
